@@ -16,4 +16,5 @@ def run(prog, rep):
     r_prop.run_rw(prog, rep)
     r_prop.run_variant(prog, rep)
     r_key.run(prog, rep, only=('nix::hdf5::PropertyHDF5',), floor=6)
+    r_key.run_getters(prog, rep, only=('nix::hdf5::PropertyHDF5',), floor=3)
     r_codec.run_datatype(prog, rep)
